@@ -15,7 +15,10 @@ RULE = ("every mark graph MARKS(n) n<=3, a seeded sample of MARKS(4) (quick) / M
         "an eighth of the chain graphs. Numeric argument max_path_length (beyond the quantifier): on a share of the queries of a "
         "share of the cases 1000 / |V|^2+1 as Python int, numpy.int64, int32, intp must give the result of None for all four "
         "functions; 0,1,2 must give the same pds as int and as numpy.int64, between the neighbours of x and the unbounded result, "
-        "and exactly the neighbours for 0. Verdict per returned set S: "
+        "and exactly the neighbours for 0. MISSING-NODE stream (1/8 of MARKS(n), 1/5 of the chain and 1/4 of the time-series graphs): a "
+        "label that is not in G from every family (int, big int, negative, str, char, 0-/2-/3-tuple, frozenset; (label, lag) on "
+        "time-series graphs) as x and as y of pds / pds_path / pds_t / pds_t_path must raise the class HEAD raises for an int "
+        "(NetworkXError for pds(x) alone, NodeNotFound otherwise). Verdict per returned set S: "
         "definition over simple paths not within S => violation; S not within the walk definition (= proved model) => violation; "
         "S strictly larger than the simple-path definition but inside the walk definition => known finding. "
         "distinct by (canonical graph, repeat seed, falsy label); non-trivial = some pds set contains a node that is not adjacent to x")
@@ -126,6 +129,8 @@ def gen_cases(tier, rng):
             c = {"kind": "marks%d" % n, "g": g, "qs": qs}
             if n < 3 or i % 2 == 0:
                 c["mpl"] = 2      # numeric-argument probes (max_path_length in every integer type) on every 2nd query
+            if i % 8 == 0:
+                c["miss"] = 1     # flavour S probes: a missing node of every label family as x and as y
             yield c
     # REPEAT stream: the object is built for a neighbour graph (one pair re-marked, or one edge re-wired keeping the node and edge
     # counts), queried, edited in place into g, then judged (c16_util.warm_object); every graph n<=3 that has an edge
@@ -159,6 +164,8 @@ def gen_cases(tier, rng):
             c["falsy"] = i % 3
         if i % 3 == 0:
             c["mpl"] = 5
+        if i % 5 == 2:
+            c["miss"] = 1
         yield _rep(c, rng) if i % 4 == 0 else c
     for i in range(200 if tier == "quick" else 2500):
         L = rng.choice([1, 2])
@@ -166,6 +173,8 @@ def gen_cases(tier, rng):
         c = {"kind": "ts", "g": g, "qs": all_queries(g["V"]), "ts": {"nv": 2, "L": L, "lags": lags}}
         if i % 3 == 0:
             c["mpl"] = 7
+        if i % 4 == 1:
+            c["miss"] = 1
         yield _rep(c, rng) if i % 4 == 0 else c
 
 
@@ -283,7 +292,25 @@ def run_queries(case, P, lab, inv, judged=True):
         out.append(r)
         if stride and i % stride == 0:
             bad.extend("q%d: %s" % (i, b) for b in probe_max_path_length(case, P, lab, call, fs, x, yo, r))
+    if judged and case.get("miss") and case["g"]["V"]:
+        v0 = lab(case["g"]["V"][0])
+        for fam, m0 in cu.MISSING.items():
+            for m in ([(m0, 0), (m0, -1)] if ts else [m0]):
+                if m in P:          # (the falsy / environment label variants may use this very label)
+                    continue
+                got = [cu.exc_class(pds, P, m), cu.exc_class(pds, P, m, v0), cu.exc_class(pds, P, v0, m),
+                       cu.exc_class(pds_path, P, v0, m), cu.exc_class(pds_path, P, m, v0)]
+                if ts:
+                    got += [cu.exc_class(pds_t, P, v0, m), cu.exc_class(pds_t, P, m, v0),
+                            cu.exc_class(pds_t_path, P, v0, m), cu.exc_class(pds_t_path, P, m, v0)]
+                if got != ERR_EXPECTED[:len(got)]:
+                    bad.append("missing node of family %s: exception classes %s" % (fam, got))
     return out, bad
+
+
+# flavour S: what HEAD raises for a missing INT label, required for a missing label of every family:
+# pds(m), pds(m, v), pds(v, m), pds_path(v, m), pds_path(m, v), pds_t(v, m), pds_t(m, v), pds_t_path(v, m), pds_t_path(m, v)
+ERR_EXPECTED = ["NetworkXError"] + ["NodeNotFound"] * 8
 
 
 def run_impl(case):
@@ -294,7 +321,7 @@ def run_impl(case):
     return {"res": out, "mpl": bad[:5], "mutated": gr.snapshot(P) != before}
 
 
-_ORDER = ["exception", "model-vs-oracle", "max_path_length-argument", "missing-nodes", "extra-nodes-outside-walk-definition",
+_ORDER = ["exception", "model-vs-oracle", "max_path_length-argument", "missing-node-exception-class", "missing-nodes", "extra-nodes-outside-walk-definition",
           "argument-mutated", "over-approximation"]
 
 
@@ -318,7 +345,7 @@ def verdicts(case, impl, model):
     if impl["mutated"]:
         vs.add("argument-mutated")
     if impl.get("mpl"):
-        vs.add("max_path_length-argument")
+        vs.add("missing-node-exception-class" if any("missing node" in b for b in impl["mpl"]) else "max_path_length-argument")
     return vs
 
 
